@@ -57,7 +57,11 @@ PROBES = ["join-while-running", "join-after-finished", "timeout-expired", "evalu
 PROT = "ACDEFGHIKLMNPQRSTVWY"
 NUC = "ACGT"
 NUC_AMB = "ACGTRYWSMKHBVDN"
-KINDS = ["clustalo", "muscle3", "muscle5", "mafft", "stublocal", "stubpoll"]
+KINDS = ["clustalo", "muscle3", "muscle5", "mafft", "stublocal", "stubpoll", "stubmsa"]
+# stubmsa: a bare MSAApp subclass for a program with a configurable set of abilities (the four supports_*() hooks a
+# subclass overrides); the shipped wrappers all answer True for the sequence types, so only this kind reaches the
+# constructor branches for a protein-only / nucleotide-only program and for missing custom-matrix support
+ALL_ABILITIES = {"nuc": True, "prot": True, "nuc_matrix": True, "prot_matrix": True}
 
 CREATED, RUNNING, FINISHED, JOINED, CANCELLED, LAUNCH_FAILED, DEAD = (
     "CREATED", "RUNNING", "FINISHED", "JOINED", "CANCELLED", "LAUNCH_FAILED", "DEAD")
@@ -81,7 +85,7 @@ ALLOWED = {
 # ================================================================================================
 
 def _gen_seqs(rng, kind):
-    t = rng.choices(["protein", "nuc", "nuc_amb", "custom"], [5, 3, 2, 2 if kind in ("muscle3", "mafft") else 0.4])[0]
+    t = rng.choices(["protein", "nuc", "nuc_amb", "custom"], [5, 3, 2, 2 if kind in ("muscle3", "mafft", "stubmsa") else 0.4])[0]
     n = rng.choice([2, 2, 3, 3, 4, 5, 6, 9, 10, 11, 12, 14])
     mode = rng.choice(["random", "random", "equal", "len1", "related"])
     if t == "custom":
@@ -150,8 +154,10 @@ def _gen_script(rng, kind, faulty):
 
 
 def _gen_wrapper(rng, faulty):
-    kind = rng.choices(KINDS, [4, 4, 3, 4, 2, 3])[0]
+    kind = rng.choices(KINDS, [4, 4, 3, 4, 2, 3, 3])[0]
     w = {"kind": kind, "bin": rng.choice([None, None, f"/opt/tools/bin/{kind}"])}
+    if kind == "stubmsa":
+        w["flags"] = {"nuc": rng.random() < 0.6, "prot": rng.random() < 0.8, "nuc_matrix": rng.random() < 0.6, "prot_matrix": rng.random() < 0.7}
     if kind in ("stublocal", "stubpoll"):
         w["bin"] = "stubtool"
         if kind == "stubpoll" and rng.random() < 0.5:
@@ -164,7 +170,7 @@ def _gen_wrapper(rng, faulty):
         w["seqs"] = _gen_seqs(rng, kind)
         w["matrix"] = None
         t = w["seqs"]["type"]
-        if t == "custom" or (t == "protein" and kind in ("muscle3", "mafft") and rng.random() < 0.4) or \
+        if t == "custom" or (kind == "stubmsa" and rng.random() < 0.55) or (t == "protein" and kind in ("muscle3", "mafft") and rng.random() < 0.4) or \
                 (t in ("nuc", "nuc_amb") and kind == "mafft" and rng.random() < 0.3) or rng.random() < 0.03:
             w["matrix"] = {"seed": rng.randrange(1 << 30), "asym": rng.random() < 0.04}
         if t == "custom" and rng.random() < 0.06:
@@ -192,6 +198,7 @@ SETTERS = {
     "mafft": ["add_options", "set_exec_dir"],
     "stublocal": ["add_options", "set_exec_dir", "set_arguments", "set_stdin"],
     "stubpoll": [],
+    "stubmsa": ["add_options", "set_exec_dir"],
 }
 RESULTS = {
     "clustalo": ["get_alignment", "get_alignment_order", "get_guide_tree", "get_distance_matrix"],
@@ -200,6 +207,7 @@ RESULTS = {
     "mafft": ["get_alignment", "get_alignment_order", "get_guide_tree"],
     "stublocal": [],
     "stubpoll": ["get_result"],
+    "stubmsa": ["get_alignment", "get_alignment_order"],
 }
 LOCAL_GETTERS = ["get_command", "get_process", "get_exit_code", "get_stdout", "get_stderr"]
 
@@ -366,6 +374,7 @@ class WRec:
         self.seqs = None
         self.matrix = None
         self.expected_in = None
+        self.mapped = False  # sequences handed to the program as stand-in protein sequences
         self.reports_checked = 0
         self.job = None  # stubpoll
 
@@ -419,14 +428,19 @@ def _make_matrix(mspec, seqs):
     return SubstitutionMatrix(alph, alph, m)
 
 
-def _expected_input_rows(seqs, sspec):
-    """What the external tool must receive: the symbols of every sequence, custom alphabets mapped onto
-    the amino-acid alphabet code by code (computed without biotite's map_sequence)."""
+def _expected_input_rows(seqs, sspec, mapped=None):
+    """What the external tool must receive: the symbols of every sequence; sequences the program has no mode for
+    (custom alphabets, nucleotides for a protein-only program) mapped onto the amino-acid alphabet code by code
+    (computed without biotite's map_sequence)."""
     from biotite.sequence import ProteinSequence
 
-    if sspec["type"] == "custom":
+    if mapped is None:
+        mapped = sspec["type"] == "custom"
+    if mapped:
         prot = ProteinSequence.alphabet.get_symbols()
-        return ["".join(prot[c] for c in r) for r in sspec["rows"]]
+        if sspec["type"] == "custom":
+            return ["".join(prot[c] for c in r) for r in sspec["rows"]]
+        return ["".join(prot[int(c)] for c in q.code) for q in seqs]
     return list(sspec["rows"])
 
 
@@ -572,7 +586,7 @@ class Sim:
         if got != exp:
             self.fail("launch:tool-input", kind=rec.kind, got=got, expected=exp)
         self.res.stats["probe:tool-input-verified"] += 1
-        if rec.spec["seqs"]["type"] == "custom":
+        if rec.mapped:
             self.res.stats["probe:mapped-alphabet-verified"] += 1
         opts, flags = rep["opts"], set(rep["flags"])
         st = rec.seqtype
@@ -628,6 +642,10 @@ class Sim:
             if ("--amino" in flags) != (st == "protein") or ("--nuc" in flags) != (st != "protein"):
                 self.fail("launch:seqtype", kind=k, flags=sorted(flags), expected=st)
             self.check_matrix(rec, rep, "--aamatrix" in opts)
+        elif k == "stubmsa":
+            if opts.get("-seqtype") != st:
+                self.fail("launch:seqtype", kind=k, got=opts.get("-seqtype"), expected=st)
+            self.check_matrix(rec, rep, "-matrix" in opts)
 
     def check_matrix(self, rec, rep, given):
         if (rec.matrix is not None) != given:
@@ -638,7 +656,7 @@ class Sim:
 
         cols, m = rep["matrix_in"]
         sm = rec.matrix.score_matrix()
-        if rec.spec["seqs"]["type"] == "custom":
+        if rec.mapped:
             syms = [str(s) for s in ProteinSequence.alphabet.get_symbols()]
         else:
             syms = [str(s) for s in rec.matrix.get_alphabet1().get_symbols()]
@@ -783,8 +801,8 @@ class Sim:
                 matrix = None
                 if ws.get("matrix") is not None and not ws.get("ctor_fault"):
                     matrix = _make_matrix(ws["matrix"], seqs)
-                cls = app_class(k)
-                default_bin = {"clustalo": "clustalo", "muscle3": "muscle", "muscle5": "muscle", "mafft": "mafft"}[k]
+                cls = app_class(k) if k != "stubmsa" else make_stub_msa_class(ws.get("flags", ALL_ABILITIES))
+                default_bin = {"clustalo": "clustalo", "muscle3": "muscle", "muscle5": "muscle", "mafft": "mafft", "stubmsa": "stubmsa"}[k]
                 rec.bin = ws["bin"] or default_bin
                 # documented: any iterable of sequences; a generator can be consumed only once
                 given = (x for x in seqs) if ws["seqs"].get("container") == "generator" else seqs
@@ -807,8 +825,26 @@ class Sim:
                     expected_exc = (VersionError,)
                 elif ws.get("ctor_fault"):
                     expected_exc = (ValueError,)
-                elif matrix is not None and ws["matrix"].get("asym") and k in ("muscle3", "mafft"):
+                elif matrix is not None and ws["matrix"].get("asym") and k in ("muscle3", "mafft", "stubmsa"):
                     expected_exc = (ValueError,)
+                elif k == "stubmsa":
+                    # documented in MSAApp: a sequence type the program has no mode for is mapped onto protein
+                    # sequences if the program aligns proteins with a custom matrix; otherwise it is refused
+                    ab = ws.get("flags", ALL_ABILITIES)
+                    rec.mapped = False
+                    if t == "protein" and ab["prot"]:
+                        if matrix is not None and not ab["prot_matrix"]:
+                            expected_exc = (TypeError,)
+                    elif t in ("nuc", "nuc_amb") and ab["nuc"]:
+                        if matrix is not None and not ab["nuc_matrix"]:
+                            expected_exc = (TypeError,)
+                    elif t == "protein":
+                        expected_exc = (TypeError,)  # a protein alphabet cannot be mapped onto itself
+                    elif not ab["prot"] or not ab["prot_matrix"] or matrix is None or \
+                            (t == "custom" and len(ws["seqs"]["alphabet"]) > 24):
+                        expected_exc = (TypeError,)
+                    else:
+                        rec.mapped = True
                 elif t == "custom" and k in ("clustalo", "muscle5"):
                     expected_exc = (TypeError,)
                 elif t == "custom" and len(ws["seqs"]["alphabet"]) > 24:
@@ -817,7 +853,7 @@ class Sim:
                     expected_exc = (TypeError,)
                 elif t in ("nuc", "nuc_amb") and matrix is not None and k == "muscle3":
                     expected_exc = (TypeError,)
-                rec.matrix = matrix if k in ("muscle3", "mafft") else None
+                rec.matrix = matrix if k in ("muscle3", "mafft", "stubmsa") else None
                 st, val = call(cls, *args, **kwargs)
                 if v and not self.real:
                     if getattr(self.world, "version_args", None) != [rec.bin, "-version"]:
@@ -847,9 +883,13 @@ class Sim:
         if k == "mafft":
             rec.files.add(app.get_input_file_path() + ".tree")
         if k not in ("stublocal", "stubpoll"):
-            rec.expected_in = _expected_input_rows(rec.seqs, ws["seqs"])
             t = ws["seqs"]["type"]
-            rec.seqtype = "protein" if t in ("protein", "custom") else "nucleotide"
+            if k != "stubmsa":
+                rec.mapped = t == "custom"
+            rec.expected_in = _expected_input_rows(rec.seqs, ws["seqs"], rec.mapped)
+            rec.seqtype = "protein" if (t == "protein" or rec.mapped) else "nucleotide"
+            if rec.mapped and t != "custom":
+                self.res.stats["probe:nucleotides-mapped-for-protein-only-program"] += 1
         rec.exec_dir_path = None
         rec.created_cwd = self.cur_cwd  # documented default execution directory: the cwd at creation time
         rec.end_how = None
@@ -1529,7 +1569,7 @@ class Sim:
         afterwards temp dir, cwd and process table must be as before."""
         ws = rec0.spec
         k = rec0.kind
-        if k in ("stublocal", "stubpoll") or ws.get("ctor_fault") or ws["script"]["dur"] is None:
+        if k in ("stublocal", "stubpoll", "stubmsa") or ws.get("ctor_fault") or ws["script"]["dur"] is None:
             return
         if (ws.get("version") or {}).get("kind", "ok") != "ok":
             return
@@ -1547,7 +1587,8 @@ class Sim:
         if t == "custom" and matrix is None:
             return
         rec.matrix = matrix
-        rec.expected_in = _expected_input_rows(seqs, ws["seqs"])
+        rec.mapped = t == "custom"
+        rec.expected_in = _expected_input_rows(seqs, ws["seqs"], rec.mapped)
         rec.seqtype = "protein" if t in ("protein", "custom") else "nucleotide"
         rec.bin = ws["bin"] or {"clustalo": "clustalo", "muscle3": "muscle", "muscle5": "muscle", "mafft": "mafft"}[k]
         cls = app_class(k)
@@ -1635,6 +1676,45 @@ def app_class(kind):
     from biotite.application.muscle import Muscle5App, MuscleApp
 
     return {"clustalo": ClustalOmegaApp, "muscle3": MuscleApp, "muscle5": Muscle5App, "mafft": MafftApp}[kind]
+
+
+def make_stub_msa_class(abilities):
+    from biotite.application.msaapp import MSAApp
+
+    class StubMSAApp(MSAApp):
+        """Bare MSAApp subclass: command line of the fictitious program plus the documented override hooks."""
+
+        def __init__(self, sequences, bin_path="stubmsa", matrix=None):
+            super().__init__(sequences, bin_path, matrix)
+
+        def run(self):
+            args = ["-in", self.get_input_file_path(), "-out", self.get_output_file_path(), "-seqtype", self.get_seqtype()]
+            if self.get_matrix_file_path() is not None:
+                args += ["-matrix", self.get_matrix_file_path()]
+            self.set_arguments(args)
+            super().run()
+
+        @staticmethod
+        def get_default_bin():
+            return "stubmsa"
+
+        @staticmethod
+        def supports_nucleotide():
+            return abilities["nuc"]
+
+        @staticmethod
+        def supports_protein():
+            return abilities["prot"]
+
+        @staticmethod
+        def supports_custom_nucleotide_matrix():
+            return abilities["nuc_matrix"]
+
+        @staticmethod
+        def supports_custom_protein_matrix():
+            return abilities["prot_matrix"]
+
+    return StubMSAApp
 
 
 def make_stub_local(bin_path, script=None):
